@@ -159,3 +159,75 @@ def const_of(t):
     if t[0] == 'const':
         return t[1]
     return None
+
+
+def access_path(t):
+    """(root, steps): the chain of field / downcast / index projections leading from a root value (argument, local, call
+    result) to the term; references and dereferences are transparent.  steps: ('f', i) | ('dc', 'Some') | ('ix', term)."""
+    steps = []
+    for _ in range(40):
+        k = t[0]
+        if k in ('ref', 'deref'):
+            t = t[1]
+        elif k == 'loc' and len(t) > 2:
+            t = t[2]
+        elif k == 'cast' and t[1] in ('PtrToPtr', 'Transmute', 'PointerCoercion(Unsize)', 'Unsize') :
+            t = t[2]
+        elif k == 'field':
+            steps.append(('f', t[3] if len(t) > 3 else t[2]))
+            t = t[1]
+        elif k == 'downcast':
+            steps.append(('dc', t[2]))
+            t = t[1]
+        elif k == 'index':
+            steps.append(('ix', t[2]))
+            t = t[1]
+        else:
+            break
+    steps.reverse()
+    return t, steps
+
+
+def is_arg(t, n=None):
+    """the term is (a reference chain to) the function argument n (any argument if n is None)"""
+    r, st = access_path(t)
+    return not st and r[0] == 'init' and (n is None or r[1] == n)
+
+
+def slice_head(t):
+    """If the term is the first element of a slice value, return that slice term: s[0], *s.first()?/unwrap,
+    *s.split_first()?.0 ; else None."""
+    r, st = access_path(t)
+    if st and st[-1][0] == 'ix' and const_of(st[-1][1]) == 0:
+        base = t
+        # rebuild the base term: simplest is to return the root when the index is the only step
+        if len(st) == 1:
+            return r
+        return None
+    if r[0] == 'call' and r[2]:
+        nm = canon(r[1])
+        if nm.endswith('split_first') and st == [('dc', 'Some'), ('f', 0), ('f', 0)]:
+            return r[2][0]
+        if nm.endswith('::first') and st == [('dc', 'Some'), ('f', 0)]:
+            return r[2][0]
+    return None
+
+
+def slice_tail1(t):
+    """If the term is `s[1..]` of a slice value (s[1..], s.split_first()?.1, s.split_at(1).1), return s; else None."""
+    r, st = access_path(t)
+    if r[0] == 'call' and r[2]:
+        nm = canon(r[1])
+        if nm.endswith('split_first') and st == [('dc', 'Some'), ('f', 0), ('f', 1)]:
+            return r[2][0]
+        if nm.endswith('split_at') and st == [('f', 1)] and len(r[2]) > 1 and const_of(r[2][1]) == 1:
+            return r[2][0]
+        if nm.endswith(('Index::index', 'index::index')) and not st and len(r[2]) == 2:
+            ix = deref_all(r[2][1])
+            if agg_variant(ix) and ix[1][1].split('::')[-1] == 'RangeFrom' and const_of(ix[2][0]) == 1:
+                return r[2][0]
+    if st and st[-1][0] == 'ix' and len(st) == 1:
+        ix = deref_all(st[-1][1])
+        if agg_variant(ix) and ix[1][1].split('::')[-1] == 'RangeFrom' and const_of(ix[2][0]) == 1:
+            return r
+    return None
